@@ -23,7 +23,7 @@ const (
 
 var pkNames = []string{"config", "wire", "splice", "replay", "byzantine"}
 
-var wireKinds = []int{edFlip, edDup, edDrop, edTruncFix, edTruncRaw, edExtendFix, edExtendRaw}
+var wireKinds = []int{edFlip, edDup, edDrop, edTruncFix, edTruncRaw, edExtendFix, edExtendRaw, edCut}
 
 type pipeCfg struct {
 	kind   int
@@ -32,6 +32,7 @@ type pipeCfg struct {
 	ip, rp party
 	// second session (splice)
 	ip2, rp2 party
+	twin     bool
 	ed       edit
 	byz      byzPlan
 }
@@ -106,9 +107,24 @@ func drawPipe(g simrt.Gen) pipeCfg {
 	switch c.kind {
 	case pkConfig:
 		c.ip, c.rp = drawParties(g, c.tls, slotI, slotR, false)
+		if g.Bool() {
+			// a second, concurrent, undisturbed session in which one party is the same process (same transport
+			// object) talking to somebody else
+			c.twin = true
+			c.ip2, c.rp2 = drawParties(g, c.tls, slotI2, slotR2, false)
+			if g.Bool() {
+				c.rp2 = c.rp
+			} else {
+				c.ip2 = c.ip
+			}
+			c.ip2.session, c.rp2.session = c.ip.session, c.rp.session
+			if !c.ip.session {
+				c.ip2.prologue, c.rp2.prologue, c.ip2.noCheck, c.rp2.noCheck, c.ip2.early, c.rp2.early = nil, nil, false, false, "", ""
+			}
+		}
 	case pkWire:
 		c.ip, c.rp = drawParties(g, c.tls, slotI, slotR, g.Chance(3, 4))
-		c.ed.kind = wireKinds[g.Weighted(10, 2, 1, 2, 2, 2, 2)]
+		c.ed.kind = wireKinds[g.Weighted(10, 2, 1, 2, 2, 2, 2, 1)]
 		c.ed.dir, c.ed.idx = drawFrame(g, c.tls)
 		c.ed.pos = g.Int(1 << 16)
 		c.ed.mask = byte(1 + g.Int(255))
@@ -156,7 +172,7 @@ func drawPipe(g simrt.Gen) pipeCfg {
 	// link chunking: fragmenting modes only when every length on the wire is a function of the tape
 	c.mode = simnet.Whole
 	det := !c.tls && !varLen(c.ip.id.typ) && !varLen(c.rp.id.typ)
-	if c.kind == pkSplice {
+	if c.kind == pkSplice || c.twin {
 		det = det && !varLen(c.ip2.id.typ) && !varLen(c.rp2.id.typ)
 	}
 	if c.kind == pkByz {
@@ -192,7 +208,15 @@ func runPipe(t *testing.T, tape *simrt.Tape, g simrt.Gen, o *common.Outcome) {
 				return
 			}
 			sessions = append(sessions, s)
-			env.launch(s)
+			if c.twin {
+				s2, err := env.start("twin", c.ip2, c.rp2, edit{}, ident{}, ident{})
+				if err != nil {
+					o.Trouble = err.Error()
+					return
+				}
+				sessions = append(sessions, s2)
+			}
+			env.launch(sessions...)
 			wg.Wait()
 			markMustFail(s)
 		case pkSplice:
@@ -212,6 +236,9 @@ func runPipe(t *testing.T, tape *simrt.Tape, g simrt.Gen, o *common.Outcome) {
 				a.R.truth, a.R.partner = c.ip2.id, b.I
 				b.I.truth, b.I.partner = c.rp.id, a.R
 				b.R.truth, b.R.partner = c.ip.id, a.I
+				for _, x := range []*side{a.I, a.R, b.I, b.R} {
+					x.keepOpen = true
+				}
 			}
 			sessions = append(sessions, a, b)
 			env.launch(a, b)
@@ -288,6 +315,9 @@ func runPipe(t *testing.T, tape *simrt.Tape, g simrt.Gen, o *common.Outcome) {
 		}
 		if s.I.edh != nil && s.I.hsOK && s.R.hsOK {
 			o.Probe("early-data-delivered")
+		}
+		if s.name == "twin" && s.I.hsOK && s.R.hsOK && sessions[0].I.hsOK && sessions[0].R.hsOK {
+			o.Probe("concurrent-sessions-of-one-transport-complete")
 		}
 		if !adversary && s.I.hsOK && s.R.hsOK {
 			o.Probe("clean-" + protoName(c.tls) + "-" + keyTypeNames[s.I.p.id.typ] + "-" + keyTypeNames[s.R.p.id.typ])
